@@ -54,12 +54,12 @@ META = {
         {"name": "suite", "flavour": "S", "shards": 16, "tiers": ["thorough"]},
     ],
     "gates": {
-        "quick": {"evaluations": 1500, "chaos_actions": 2000, "callbacks_fired": 20000,
-                  "faults_injected": 200, "ref_experiments": 100, "scenario_runs": 50,
-                  "others_cases": 30},
-        "thorough": {"evaluations": 20000, "chaos_actions": 30000, "callbacks_fired": 300000,
-                     "faults_injected": 3000, "ref_experiments": 100, "scenario_runs": 500,
-                     "others_cases": 200, "suite_modules": 40},
+        "quick": {"evaluations": 2000, "chaos_actions": 1000, "callbacks_fired": 6000,
+                  "faults_injected": 120, "ref_experiments": 100, "scenario_runs": 40,
+                  "others_cases": 600},
+        "thorough": {"evaluations": 30000, "chaos_actions": 15000, "callbacks_fired": 90000,
+                     "faults_injected": 2000, "ref_experiments": 100, "scenario_runs": 400,
+                     "others_cases": 10000, "suite_modules": 40},
     },
     "watchdog": {"quick": 1500, "thorough": 10800},
     "case_timeout": 600,
@@ -70,8 +70,9 @@ META = {
     ],
 }
 
+# c15 (the mini-language parser) is pure Python text processing and is left out
 OTHERS = ["c01", "c02", "c03", "c04", "c05", "c06", "c07", "c08", "c09", "c10", "c11", "c12",
-          "c13", "c14", "c15", "c16", "c17", "c19", "c20"]
+          "c13", "c14", "c16", "c17", "c19", "c20"]
 
 
 # =============================================================================
@@ -514,15 +515,25 @@ SCENARIOS = [
 
 
 # =============================================================================
+class StopSub(BaseException):
+    """raised out of another monitor's run() once its share of the budget is used"""
+
+
 class SubCtx:
     """Context handed to another property's monitor when it is replayed here:
     same write-ahead protocol (so crashes are attributed), reduced budget, the
     behavioural oracle's complaints are only counted (they are judged by that
     property's own check, on the P build)."""
 
-    def __init__(self, ctx, name, factor):
+    def __init__(self, ctx, name, factor, case_cap):
         self._c, self._n = ctx, name
         self.factor = factor
+        self._cap = case_cap
+        self._begun = 0
+        # attributes some monitors read on the real Ctx
+        self.samples, self.viol_per_key, self.counters, self.sigs, self.notes = [], {}, {}, set(), {}
+        self.nviol = 0
+        self.only = None
         self.tier, self.seed, self.shard, self.nshards = ctx.tier, ctx.seed, ctx.shard, ctx.nshards
         self.phase = "main"
         self.replay_mode = False
@@ -531,7 +542,8 @@ class SubCtx:
 
     def scale(self, quick, thorough):
         v = quick if self.tier == "quick" else thorough
-        if isinstance(v, (int, float)) and not isinstance(v, bool) and v:
+        # only budgets are scaled; small integers are structural parameters (lengths, depths)
+        if isinstance(v, (int, float)) and not isinstance(v, bool) and v >= 100:
             return type(v)(max(1, v * self.factor))
         return v
 
@@ -542,8 +554,11 @@ class SubCtx:
         return self._c.rng(self._n, *k)
 
     def begin(self, case_id, desc=None):
+        if self._begun >= self._cap:
+            raise StopSub()
         ok = self._c.begin("others:%s:%s" % (self._n, case_id), None)
         if ok:
+            self._begun += 1
             self._c.count("others_cases")
             self._c.ev()
             self._c.sig("others", self._n, str(case_id).split(":")[0])
@@ -602,7 +617,7 @@ def phase_san(ctx):
             finally:
                 ctx.end()
     # ---- 2. random API programs with chaos callbacks ---------------------------
-    nprog = ctx.scale(1600, 40000)
+    nprog = ctx.scale(4000, 60000)
     stats = {}
 
     def st(k):
@@ -614,7 +629,7 @@ def phase_san(ctx):
             continue
         try:
             rng = ctx.rng("prog", p)
-            chaos_p = rng.choice([0.0, 0.02, 0.1, 0.3])
+            chaos_p = rng.choice([0.0, 0.05, 0.15, 0.3, 0.5])
             a0, t0 = fz.CH.actions, sum(v for k, v in fz.CH.counts.items() if k.startswith("cb:"))
             before = dict(fz.CH.counts)
             fz.run_program(rng, "p%d" % p, rng.randint(10, 60), chaos_p, stats=st)
@@ -631,7 +646,7 @@ def phase_san(ctx):
         if p % 50 == 0:
             gc.collect()
     # ---- 3. fault injection: k-th callback raises ---------------------------------
-    nfi = ctx.scale(60, 1200)
+    nfi = ctx.scale(96, 1600)
     for p in range(nfi):
         if not ctx.mine(p):
             continue
@@ -667,15 +682,21 @@ def phase_san(ctx):
             continue
         if not hasattr(mod, "run"):
             continue
-        sub = SubCtx(ctx, name, factor)
+        sub = SubCtx(ctx, name, factor, ctx.scale(12, 250))
+        import time as _t
+        _t0 = _t.time()
         try:
             mod.run(sub)
+        except StopSub:
+            ctx.count("others_stopped_at_case_cap")
         except BaseException as e:
             if isinstance(e, (KeyboardInterrupt, SystemExit)):
                 raise
             ctx.count("others_aborted")
+            ctx.note("others_aborted_" + name, "%s: %s" % (type(e).__name__, str(e)[:300]))
         finally:
             ctx.end()
+            ctx.count("others_seconds_" + name, int((_t.time() - _t0) * 1000))
             gc.set_threshold(700, 10, 10)
             sys.setrecursionlimit(400)
 
@@ -701,7 +722,7 @@ class RefH(HasTraits):
     r = Range(0.0, 1e30)
     e = Enum(1, 2, 3)
     t = Tuple(Int, Str)
-    ei = Either(Int, Str)
+    ei = Either(None, Int, Str)
     ci = CInt
     m = Map({"a": 1})
     li = List(Int)
@@ -745,6 +766,14 @@ class RefH(HasTraits):
     def _i_changed(self, name, old, new):
         pass
 
+
+
+class RefPick(HasTraits):
+    a = Any
+    la = List(Any)
+    t = Tuple(Int, Str)
+    ei = Either(None, Int, Str)
+    d = Dict(Str, Any)
 
 
 def _mk_ref_experiments():
@@ -902,13 +931,16 @@ def _mk_ref_experiments():
 
     def pick(h, s):
         h.a = s
+        h.la = [s]
         pickle.loads(pickle.dumps(h))
         copy.deepcopy(h)
         h.clone_traits()
         pickle.loads(pickle.dumps(h.trait('t')))
         copy.deepcopy(h.trait('ei'))
         h.a = None
-    ex.append(("pickle/copy/clone", new, pick, ob))
+        h.la = []
+    ex.append(("pickle/copy/clone", RefPick, pick, st))
+    ex.append(("pickle/copy/clone<-bigint", RefPick, pick, bigint))
 
     def default_for(h, s):
         for n in ('li', 'd', 'p', 'i', 't'):
